@@ -134,6 +134,104 @@ pub fn eval_tag(c: &TagCase, obs: &mut Obs) -> Result<(), String> {
     Ok(())
 }
 
+// --- boot informations one after the other at the same address -------------------
+
+#[derive(Clone, Debug, Serialize, Deserialize)]
+pub struct SeqCase {
+    pub steps: Vec<Hex>,
+}
+
+/// The regions are written one after the other to the same address and fully
+/// exercised in one process (a forked child, ordinary memory): every returned
+/// reference lies inside the region declared *now* and inside its tag, and
+/// every stored result is the reference model's for that region alone.
+fn eval_seq(c: &SeqCase, obs: &mut Obs) -> Result<(), String> {
+    for s in &c.steps {
+        if s.0.len() < 8 || s.0.len() != r8(le32(&s.0, 0) as usize).max(8) || s.0.len() > 1 << 18 {
+            return Err("malformed case".into());
+        }
+    }
+    let cap = c.steps.iter().map(|s| s.0.len()).max().unwrap_or(8) + 4096;
+    let r = mb2_sandbox::run_child(|| {
+        let mut buf = Aligned::new(&vec![0xEEu8; cap]);
+        for (i, img) in c.steps.iter().enumerate() {
+            let mut all = vec![0xEEu8; cap];
+            all[..img.0.len()].copy_from_slice(&img.0);
+            buf.overwrite(&all);
+            let t = unsafe { mb2_model::exercise_mbi::exercise_mbi(buf.as_ptr(), &MbiOpts { debug: true, max_steps: img.0.len() / 8 + 4, typed_all: true }) };
+            if let Err(m) = validate(&t, le32(&img.0, 0) as usize) {
+                return format!("E boot information {} of {} at the same address: {m}", i + 1, c.steps.len()).into_bytes();
+            }
+            let d = mb2_model::expect_mbi::expect_mbi(&img.0, &mb2_model::expect_mbi::ExpectOpts { typed_all: true }).diff(&t, &|k| !k.split('.').any(|seg| seg == "dbg" || seg.starts_with('~')));
+            if !d.is_empty() {
+                return format!("E boot information {} of {} at the same address: {}", i + 1, c.steps.len(), d.join("; ")).into_bytes();
+            }
+        }
+        b"OK".to_vec()
+    });
+    match r {
+        mb2_sandbox::ChildResult::Done(b) if b == b"OK" => {}
+        mb2_sandbox::ChildResult::Done(b) => return Err(String::from_utf8_lossy(&b[2.min(b.len())..]).into_owned()),
+        mb2_sandbox::ChildResult::Signal(sig) => return Err(format!("{} boot informations one after the other at the same address crashed the process (signal {sig})", c.steps.len())),
+        _ => {
+            obs.inconclusive("child did not report");
+            return Ok(());
+        }
+    }
+    let lens: Vec<usize> = c.steps.iter().map(|s| s.0.len()).collect();
+    let shrinks = lens.windows(2).any(|w| w[1] < w[0]);
+    obs.class(if shrinks { "!later-region-shorter" } else { "not-shrinking" });
+    if shrinks {
+        obs.nontrivial(fnv(format!("{:?}", c.steps).as_bytes()));
+        obs.sample(json!({"region_lengths": lens}));
+    }
+    Ok(())
+}
+
+fn strategy_seq(_: &Ctx) -> BoxedStrategy<SeqCase> {
+    // a conformant region with several tags, then regions made of a prefix / a suffix /
+    // a rotation of its tags, one tag twice, one tag with a tampered size word, or an
+    // unrelated region
+    (proptest::collection::vec(gen::conf_tag(), 1..=8), proptest::collection::vec((0u8..6, any::<u8>(), proptest::collection::vec(gen::conf_tag(), 0..=5)), 1..=3))
+        .prop_map(|(base, vars)| {
+            let small = |mut v: Vec<gen::ConfTag>| {
+                for t in &mut v {
+                    t.n = t.n.min(12);
+                }
+                v
+            };
+            let base = small(base);
+            let mut steps = vec![Hex(gen::build_conformant_mbi(&base, 0))];
+            for (kind, r, other) in vars {
+                let mut v = base.clone();
+                let k = v.len();
+                let mut tamper = false;
+                match kind {
+                    0 => v.truncate(r as usize % k),
+                    1 => {
+                        v.drain(..(1 + r as usize % k).min(k));
+                    }
+                    2 if k > 1 => v.rotate_left(1 + r as usize % (k - 1)),
+                    3 => {
+                        let d = v[r as usize % k].clone();
+                        v.insert(0, d);
+                    }
+                    4 => tamper = true,
+                    _ => v = small(other),
+                }
+                let mut region = gen::build_conformant_mbi(&v, 0);
+                if tamper && region.len() >= 24 {
+                    // the first tag claims to be larger than what is left of the region
+                    let left = region.len() as u32 - 8;
+                    put32(&mut region, 12, left + 8 * (1 + r as u32 % 32));
+                }
+                steps.push(Hex(region));
+            }
+            SeqCase { steps }
+        })
+        .boxed()
+}
+
 /// Every kind's conformant image at every declared size 8..=len+16, the image cut
 /// or padded to the declared size so that the tag's padded extent ends at the
 /// guard page (the counts and indices inside keep their values: whatever no
@@ -157,6 +255,22 @@ fn enumerate_tags(ctx: &Ctx) -> Box<dyn Iterator<Item = TagCase>> {
                     img.resize(r8(size), 0x5A);
                     put32(&mut img, 4, size as u32);
                     v.push(TagCase { img: Hex(img), kind, excluded: 0 });
+                }
+            }
+        }
+    }
+    // ELF-sections tags whose headers refer to the harness-owned names (so that
+    // name() is called on whatever is yielded), with the string-table index at
+    // the reserved ELF values and just outside the table
+    for es_bit in [0u32, 1] {
+        for n in 1usize..=3 {
+            for link_small in [false, true] {
+                let base = mb2_model::encode::conformant_tag(9, 0xE1F + n as u64, n, es_bit | 0x0001_0000 | if link_small { 0x1000 } else { 0 });
+                for shndx in [0xffffu32, 0xfff1, 0xff00, 0xfffe, n as u32, 0x1_0000, 0xffff_ffff] {
+                    let mut img = base.clone();
+                    put32(&mut img, 16, shndx);
+                    img.resize(r8(img.len()), 0x5A);
+                    v.push(TagCase { img: Hex(img), kind: 9, excluded: 0 });
                 }
             }
         }
@@ -384,6 +498,17 @@ pub fn subs() -> Vec<Box<dyn Sub>> {
             enumerate: Some(enumerate_tags),
             enum_exhaustive: false,
             eval: eval_tag,
+        }),
+        Box::new(PropSub::<SeqCase> {
+            name: "mbi-sequences",
+            rule: "2..=4 boot informations written one after the other to the same address and fully exercised in one process: a conformant region with up to 8 tags, then regions made of a prefix, a suffix or a rotation of its tags, one tag twice, the same region with a first tag that claims to be larger than the rest of the region, or an unrelated region. Oracle: extent check against the total size declared now (every returned reference inside the current region and its tag) and the complete stored transcript equals the reference model's for that region alone. Non-trivial = a later region is shorter than an earlier one; distinct by the sequence",
+            profiles: Profiles::Both,
+            quick: 4000,
+            thorough: 200000,
+            strategy: strategy_seq,
+            enumerate: None,
+            enum_exhaustive: false,
+            eval: eval_seq,
         }),
         Box::new(PinnedSub),
         Box::new(super::fuzzsub::FuzzSub { target: "fuzz_mbi", name: "fuzz-mbi", runs: 1_000_000, quick_runs: 12_000, max_len: 2048 }),
